@@ -142,7 +142,7 @@ def gen_plan(rng):
                         use_libs = libs_for(delivery, maindir)
                         for l in use_libs:
                             script["head"].append('include "%s"' % l["inc"])
-                elif planted in ("inc_missing", "inc_call", "inc_inner"):
+                elif planted in ("inc_call", "inc_inner"):
                     planted = "undefined"
                     script = G.plant_failure(rng, script, planted, cfg["pool"])
                 else:
